@@ -266,7 +266,7 @@ def apply(d):
     left = {}
     for f in d["fns"]:
         for _ in range(MAX_ROUNDS):
-            sites = [i for i, b in enumerate(f["blocks"]) if not b["cleanup"] and b["term"]["k"] == "call" and "f" in b["term"] and b["term"]["f"]["path"] in inl and b["term"]["f"]["path"] != f["path"]]
+            sites = [i for i, b in enumerate(f["blocks"]) if not b["cleanup"] and b["term"]["k"] == "call" and "f" in b["term"] and b["term"]["f"]["path"] in inl and b["term"]["f"]["path"] != f["path"] and not b["term"].get("noinline")]
             if not sites:
                 break
             for i in sites:
@@ -278,9 +278,6 @@ def apply(d):
                 inline_call(f, i, copy.deepcopy(cal), d["types"])
                 f.setdefault("inlined", []).append(cal["path"])
                 summary["inlined_calls"] += 1
-            # calls marked noinline are skipped in the next round
-            if all(f["blocks"][i]["term"].get("noinline") for i in sites if f["blocks"][i]["term"]["k"] == "call"):
-                break
     # which new functions are still used otherwise?
     used_as_value = _fn_values(d)
     still_called = set()
